@@ -40,6 +40,11 @@ Judge(c, a, e) ==
                     ELSE IF e.i > a.size THEN "index>size" ELSE "in_range"
          IN Check(<< << IF InRange(a, e.i) THEN e.eg = "" ELSE e.eg = "OutOfBoundsError" /\ e.est = "OutOfBoundsError",
                         "dense_reports_out_of_bounds" >> >> \o ProjClauses(a, p), cls, "", Resync(a, p))
+    [] op = "copy_entry" ->        \* a[j] = a[i] : the value READ from entry i (a vector object) is written to entry j - entry j then holds that value, by copy
+         IF ~InRange(a, e.i) \/ ~InRange(a, e.j) \/ a.k < 2 \/ e.i = e.j THEN Skip(a) ELSE
+         LET nxt == [a EXCEPT !.vs[e.j + 1] = a.vs[e.i + 1], !.vd[e.j + 1] = a.vd[e.i + 1],
+                              !.taint = (a.taint \ {e.j}) \cup (IF e.i \in a.taint THEN {e.j} ELSE {}), !.wr = a.wr \cup {e.j}]
+         IN Check(<< << e.exc = "", "entry_value_can_be_written_to_another_entry" >> >> \o ProjClauses(nxt, p), Cls(a), "", Resync(nxt, p))
     [] op = "inplace" ->
          IF ~InRange(a, e.i) \/ a.k < 2 THEN Skip(a) ELSE
          LET i == e.i
